@@ -142,12 +142,45 @@ Proof.
   simpl. rewrite erase_app, IH, app_nil_r. destruct (fires r g); [apply erase_chans | reflexivity].
 Qed.
 
+Lemma erase_prescribed_sel ro rules g : erase (prescribed_sel ro rules g) = [].
+Proof.
+  unfold prescribed_sel. induction (lookup rules g) as [|r L IH]; [reflexivity|].
+  simpl. rewrite erase_app, IH, app_nil_r. destruct (_ && _); [apply erase_chans | reflexivity].
+Qed.
+
 Lemma erase_spec_block rules g : erase (spec_block rules g) = [g].
 Proof.
   unfold spec_block. destruct (g_kind g).
   - simpl. now rewrite erase_prescribed.
-  - now rewrite erase_app, erase_prescribed.
+  - now rewrite !erase_app, !erase_prescribed_sel.
   - simpl. now rewrite erase_prescribed.
+Qed.
+
+(* every item of a block is the trigger itself or one of its prescribed channels *)
+Lemma prescribed_sel_In ro rules g it : In it (prescribed_sel ro rules g) -> In it (prescribed rules g).
+Proof.
+  unfold prescribed_sel, prescribed. intros H. apply in_flat_map in H as [r [Hr H]].
+  apply in_flat_map. exists r. split; [exact Hr|].
+  destruct (fires r g); [|destruct H]. destruct (Bool.eqb _ ro); [exact H | destruct H].
+Qed.
+
+Lemma spec_block_In rules g it :
+  In it (spec_block rules g) -> it = Orig g \/ In it (prescribed rules g).
+Proof.
+  unfold spec_block. destruct (g_kind g); simpl; intros H.
+  - destruct H as [<-|H]; auto.
+  - apply in_app_or in H as [H|[<-|H]]; auto; right; eapply prescribed_sel_In; eassumption.
+  - destruct H as [<-|H]; auto.
+Qed.
+
+(* if every rule of the list is a readout rule, all prescribed channels are readout channels *)
+Lemma prescribed_sel_all_readout rules g :
+  forallb (fun r => is_readout (r_err r)) (lookup rules g) = true ->
+  prescribed_sel true rules g = prescribed rules g /\ prescribed_sel false rules g = [].
+Proof.
+  unfold prescribed_sel, prescribed. induction (lookup rules g) as [|r L IH]; intros H; [now split|].
+  simpl in H. apply andb_true_iff in H as [H1 H2]. destruct (IH H2) as [E1 E2].
+  simpl. rewrite E1, E2, H1. simpl. rewrite andb_true_r, andb_false_r. now split.
 Qed.
 
 Lemma erase_spec_apply rules c : erase (spec_apply rules c) = c.
@@ -294,7 +327,15 @@ Lemma step_clean rules coll0 g st :
                (s_meas st ++ (if isKM g then [g] else [])) coll0).
 Proof.
   intros C SC A FR. unfold clean_gate in C. apply andb_true_iff in C as [CL C].
-  unfold step, spec_block, isKM. rewrite prescribed_block.
+  assert (SB : spec_block rules g = match g_kind g with
+                                    | KM => prescribed rules g ++ [Orig g]
+                                    | _ => Orig g :: prescribed rules g
+                                    end).
+  { unfold spec_block. destruct (g_kind g); try reflexivity.
+    apply andb_true_iff in C as [C _]. apply andb_true_iff in C as [_ C2].
+    destruct (prescribed_sel_all_readout rules g C2) as [E1 E2]. rewrite E1, E2. now rewrite app_nil_r. }
+  rewrite SB. clear SB.
+  unfold step, isKM. rewrite prescribed_block.
   set (L := lookup rules g) in *.
   destruct (g_kind g) eqn:K.
   - (* ordinary gate *)
@@ -543,6 +584,10 @@ Proof. vm_compute. reflexivity. Qed.
 
 Lemma skeleton_refuted_two_readout :
   option_map erase (apply two_readout [] [gH; gM01]) <> Some [gH; gM01].
+Proof. vm_compute. discriminate. Qed.
+
+Lemma exact_refuted_two_readout :
+  apply two_readout [] [gH; gM01] <> Some (spec_apply two_readout [gH; gM01]).
 Proof. vm_compute. discriminate. Qed.
 
 Lemma mutation_refuted_two_readout :
